@@ -94,12 +94,35 @@ type wrappedWatchArgs struct {
 	tfm *transform.Transformer
 }
 
-func (w *wrappedWatchArgs) NewValue(ctx context.Context, val reflect.Value) error {
+// unmangle reverse-translates a value reported by the wrapped watcher. A value
+// that cannot be unmangled is reported as an error rather than forwarded.
+func (w *wrappedWatchArgs) unmangle(ctx context.Context, val reflect.Value) (reflect.Value, error) {
 	unmangledVal, unmangleErr := w.tfm.ReverseTranslate(val)
 	if unmangleErr != nil {
-		return fmt.Errorf("failed to unmangle value: %w", unmangleErr)
+		err := fmt.Errorf("failed to unmangle value: %w", unmangleErr)
+		w.WatchArgs.ReportError(ctx, err)
+		return reflect.Value{}, err
 	}
-	return w.NewValue(ctx, unmangledVal)
+	return unmangledVal, nil
+}
+
+// ReportNewValue overrides the embedded WatchArgs' method so updates from the
+// wrapped watcher are reverse-translated before they reach Dials.
+func (w *wrappedWatchArgs) ReportNewValue(ctx context.Context, val reflect.Value) error {
+	unmangledVal, unmangleErr := w.unmangle(ctx, val)
+	if unmangleErr != nil {
+		return unmangleErr
+	}
+	return w.WatchArgs.ReportNewValue(ctx, unmangledVal)
+}
+
+// BlockingReportNewValue is the blocking variant of ReportNewValue.
+func (w *wrappedWatchArgs) BlockingReportNewValue(ctx context.Context, val reflect.Value) error {
+	unmangledVal, unmangleErr := w.unmangle(ctx, val)
+	if unmangleErr != nil {
+		return unmangleErr
+	}
+	return w.WatchArgs.BlockingReportNewValue(ctx, unmangledVal)
 }
 
 type transformingSourceWithWatch struct {
